@@ -340,6 +340,8 @@ struct Doc {
     class: String, // input class, for violation keys
     fam: String,
     exp: Expected,
+    buf: String,   // output buffer class: large / fit / roomy / small, or "len:<n>" (replay of one length)
+    need: usize,   // Size(doc) according to the spec (0 = not stated)
 }
 
 fn s<'a>(v: &'a Value, k: &str) -> Result<&'a str, String> {
@@ -615,6 +617,7 @@ fn concretise(case: &Value, line: &str) -> Result<Doc, String> {
         "F6" => format!("tags_shape:[{}]", exp_tags.iter().map(|t| t.len().to_string()).collect::<Vec<_>>().join(",")),
         "F7" => format!("size:tags={}:content={}", tsize, csize),
         "F8" => format!("outside_domain:keyesc={}:hex={}", keyesc, hexcase),
+        "F10" => format!("buffer:{}:{}", if cb { "content_before_tags" } else { "tags_before_content" }, d.get("label").and_then(|x| x.as_str()).unwrap_or("")),
         _ => format!("mix:{}", if cb { "content_before_tags" } else { "tags_before_content" }),
     };
     Ok(Doc {
@@ -624,6 +627,8 @@ fn concretise(case: &Value, line: &str) -> Result<Doc, String> {
         class,
         fam,
         exp: Expected { id, pk, sig, kind: kind_v, kind_num, ts: ts_v, ts_num, tags: exp_tags, content: exp_content },
+        buf: d.get("buf").and_then(|x| x.as_str()).unwrap_or("large").to_string(),
+        need: case.get("need").and_then(|x| x.as_u64()).unwrap_or(0) as usize,
     })
 }
 
@@ -886,12 +891,36 @@ fn short(b: &[u8]) -> String {
     if b.len() <= 48 { vh::hex(b) } else { format!("{}..({} bytes)", vh::hex(&b[..48]), b.len()) }
 }
 
+/// accessors of an accepted event vs what the independent parser reads from the same text
+fn field_diffs(o: &Obs, ind: &Indep) -> Vec<(&'static str, String)> {
+    let mut bad: Vec<(&'static str, String)> = vec![];
+    if o.id[..] != ind.id[..] { bad.push(("id", short(&o.id))); }
+    if o.pk[..] != ind.pk[..] { bad.push(("pubkey", short(&o.pk))); }
+    if o.sig[..] != ind.sig[..] { bad.push(("sig", short(&o.sig))); }
+    if !num_agrees(&ind.kind, o.kind as u64) { bad.push(("kind", o.kind.to_string())); }
+    if !num_agrees(&ind.ts, o.ts) { bad.push(("created_at", o.ts.to_string())); }
+    match &o.tags {
+        Ok(t) => {
+            if *t != ind.tags {
+                bad.push(("tags", format!("{:?}", t.iter().map(|x| x.iter().map(|y| short(y)).collect::<Vec<_>>()).collect::<Vec<_>>())));
+            } else if !o.tags_gs {
+                bad.push(("tags_get_string", "get_string disagrees with the iterators".into()));
+            }
+        }
+        Err(e) => bad.push(("tags", format!("tags() failed: {}", e))),
+    }
+    if o.content != ind.content { bad.push(("content", short(&o.content))); }
+    bad
+}
+
 /// C01 on one document
 fn check_c01(doc: &Doc, ind: &Indep, buf: &mut Vec<u8>, sink: &mut Sink, stats: &mut Stats) {
     fill(buf, doc.bytes.len() * 2 + 4096, "a5", 0);
     let out = parse(&doc.bytes, buf);
     let cls = &doc.class;
-    match (&out, doc.expect.as_str()) {
+    // (a document of buffer class "small" is an ordinary must-accept text as far as the large buffer goes)
+    let expect = if doc.expect == "small" { "accept" } else { doc.expect.as_str() };
+    match (&out, expect) {
         (Outcome::Panic, "may") | (Outcome::Err(_), "may") | (Outcome::Err(_), "reject") => {
             stats.refused += 1;
         }
@@ -924,28 +953,12 @@ fn check_c01(doc: &Doc, ind: &Indep, buf: &mut Vec<u8>, sink: &mut Sink, stats: 
         (Outcome::Ok(o), e) => {
             stats.accepted += 1;
             let pre = if e == "may" { "C01:outside_domain_accepted_but_disagrees" } else { "C01:field" };
-            let mut bad: Vec<(&str, String)> = vec![];
+            let bad = field_diffs(o, ind);
             if o.consumed != ind.end {
                 sink.viol(format!("C01:consumed:{}", cls),
                           format!("consumed = {} but the closing brace ends at offset {} ({})", o.consumed, ind.end, cls),
                           replay_of("C01", doc, json!({"consumed": o.consumed})));
             }
-            if o.id[..] != ind.id[..] { bad.push(("id", short(&o.id))); }
-            if o.pk[..] != ind.pk[..] { bad.push(("pubkey", short(&o.pk))); }
-            if o.sig[..] != ind.sig[..] { bad.push(("sig", short(&o.sig))); }
-            if !num_agrees(&ind.kind, o.kind as u64) { bad.push(("kind", o.kind.to_string())); }
-            if !num_agrees(&ind.ts, o.ts) { bad.push(("created_at", o.ts.to_string())); }
-            match &o.tags {
-                Ok(t) => {
-                    if *t != ind.tags {
-                        bad.push(("tags", format!("{:?}", t.iter().map(|x| x.iter().map(|y| short(y)).collect::<Vec<_>>()).collect::<Vec<_>>())));
-                    } else if !o.tags_gs {
-                        bad.push(("tags_get_string", "get_string disagrees with the iterators".into()));
-                    }
-                }
-                Err(e) => bad.push(("tags", format!("tags() failed: {}", e))),
-            }
-            if o.content != ind.content { bad.push(("content", short(&o.content))); }
             for (f, got) in bad {
                 sink.viol(format!("{}:{}:{}", pre, f, cls),
                           format!("accessor {} returns {} but the independent parser reads something else from the same text ({})", f, got, cls),
@@ -1133,8 +1146,155 @@ fn check_c02(doc: &Doc, buf: &mut Vec<u8>, sink: &mut Sink, stats: &mut Stats, s
     }
 }
 
+// ---------------------------------------------------------------------------------------------
+// the output-buffer dimension
+// ---------------------------------------------------------------------------------------------
+
+fn buffer_lengths(class: &str, need: usize) -> Vec<usize> {
+    if let Some(n) = class.strip_prefix("len:") {
+        return vec![n.parse().unwrap_or(0)];
+    }
+    match class {
+        "fit" => (need..=need + 64).collect(),
+        "roomy" => vec![need + 65, need + 100, need + 257, need + 1000, need * 2, need * 2 + 4096],
+        "small" => {
+            let mut v: Vec<usize> = (1..=16).filter(|k| *k <= need).map(|k| need - k).collect();
+            for x in [0usize, 151, 152] {
+                if x < need && !v.contains(&x) {
+                    v.push(x);
+                }
+            }
+            v
+        }
+        _ => vec![],
+    }
+}
+
+fn bucket(len: usize, need: usize) -> String {
+    if len >= need {
+        match len - need {
+            0 => "needed".into(),
+            1..=8 => "needed+1..8".into(),
+            9..=64 => "needed+9..64".into(),
+            _ => "roomy".into(),
+        }
+    } else if need - len <= 16 {
+        "needed-1..16".into()
+    } else {
+        "tiny".into()
+    }
+}
+
+/// C01 / C02 over the concrete buffer lengths of the document's buffer class.  The outcome must not
+/// depend on the length as long as it is >= the size of the event; below that the call must fail.
+fn check_buffers(prop: &str, doc: &Doc, ind: &Indep, buf: &mut Vec<u8>, sink: &mut Sink, stats: &mut Stats, seed: u64) {
+    let (r0, tlen) = match reference(&doc.exp) {
+        Some(x) => x,
+        None => return,
+    };
+    let need = r0.len();
+    if doc.need != 0 && doc.need != need {
+        sink.toolerr(format!("Size(doc): spec says {}, the laid-out event has {} bytes ({})", doc.need, need, doc.class), vh::hex(&doc.bytes[..doc.bytes.len().min(2000)]));
+        return;
+    }
+    let cls = &doc.class;
+    for len in buffer_lengths(&doc.buf, need) {
+        let bk = bucket(len, need);
+        let fills: &[&str] = if prop == "C02" && len >= need { &["noise", "ff"] } else { &["a5"] };
+        for how in fills {
+            fill(buf, len, how, seed ^ (len as u64) << 16);
+            stats.buffer_runs += 1;
+            let out = parse(&doc.bytes, &mut buf[..]);
+            let rp = |obs: Value| -> Value {
+                let mut r = replay_of(prop, doc, obs);
+                r["buflen"] = json!(len);
+                r["needed"] = json!(need);
+                r
+            };
+            if len < need {
+                if prop == "C01" {
+                    if let Outcome::Ok(_) | Outcome::AccessorPanic(..) = &out {
+                        stats.accepted += 1;
+                        let key = format!("C01:accepted_with_too_small_buffer:{}:buffer={}", cls, bk);
+                        if !sink.full(&key) {
+                            sink.viol(key, format!("from_json returned Ok with an output buffer of {} bytes although the event needs {} ({})", len, need, cls), rp(json!("ok")));
+                        }
+                    } else {
+                        stats.refused += 1;
+                    }
+                }
+                continue;
+            }
+            match &out {
+                Outcome::Ok(o) => {
+                    stats.accepted += 1;
+                    if prop == "C01" {
+                        if o.consumed != ind.end {
+                            let key = format!("C01:consumed:{}:buffer={}", cls, bk);
+                            if !sink.full(&key) {
+                                sink.viol(key, format!("consumed = {} but the closing brace ends at offset {} (output buffer of {} bytes, event needs {}; {})", o.consumed, ind.end, len, need, cls),
+                                          rp(json!({"consumed": o.consumed})));
+                            }
+                        }
+                        for (f, got) in field_diffs(o, ind) {
+                            let key = format!("C01:field:{}:{}:buffer={}", f, cls, bk);
+                            if !sink.full(&key) {
+                                sink.viol(key, format!("accessor {} returns {} but the independent parser reads something else from the same text (output buffer of {} bytes, event needs {}; {})", f, got, len, need, cls),
+                                          rp(json!({"field": f, "got": got})));
+                            }
+                        }
+                    } else {
+                        for g in diff_regions(&o.bytes, &r0, tlen) {
+                            let key = if g == "padding_bytes" { "C02:noncanonical:padding_bytes".to_string() } else { format!("C02:noncanonical:{}:{}:buffer={}", g, cls, bk) };
+                            if !sink.full(&key) {
+                                sink.viol(key, format!("the event parsed into an output buffer of {} bytes (pre-filled with {}; event needs {}) differs from the same event built from parts in region {} ({})", len, how, need, g, cls),
+                                          rp(json!({"prefill": how, "region": g, "parsed": short(&o.bytes), "reference": short(&r0)})));
+                            }
+                        }
+                    }
+                }
+                Outcome::AccessorPanic(_, b) => {
+                    stats.accepted += 1;
+                    if prop == "C01" {
+                        let key = format!("C01:accessor_panic:{}:buffer={}", cls, bk);
+                        if !sink.full(&key) {
+                            sink.viol(key, format!("accepted into an output buffer of {} bytes (event needs {}) but an accessor panicked ({})", len, need, cls), rp(json!("accessor panic")));
+                        }
+                    } else {
+                        for g in diff_regions(b, &r0, tlen) {
+                            let key = if g == "padding_bytes" { "C02:noncanonical:padding_bytes".to_string() } else { format!("C02:noncanonical:{}:{}:buffer={}", g, cls, bk) };
+                            if !sink.full(&key) {
+                                sink.viol(key, format!("the event parsed into an output buffer of {} bytes differs from the same event built from parts in region {} ({})", len, g, cls), rp(json!({"region": g})));
+                            }
+                        }
+                    }
+                }
+                Outcome::Err(e) => {
+                    stats.refused += 1;
+                    if prop == "C01" {
+                        let key = format!("C01:rejected:{}:buffer={}", cls, bk);
+                        if !sink.full(&key) {
+                            sink.viol(key, format!("refused although the output buffer of {} bytes is large enough (the event needs {}): {} ({})", len, need, e, cls), rp(json!({"err": e})));
+                        }
+                    }
+                }
+                Outcome::Panic => {
+                    stats.panics += 1;
+                    if prop == "C01" {
+                        let key = format!("C01:panic:{}:buffer={}", cls, bk);
+                        if !sink.full(&key) {
+                            sink.viol(key, format!("from_json panicked with an output buffer of {} bytes, which is large enough (the event needs {}) ({})", len, need, cls), rp(json!("panic")));
+                        }
+                    }
+                }
+            }
+        }
+    }
+}
+
 #[derive(Default)]
 struct Stats {
+    buffer_runs: u64,
     docs: u64,
     accepted: u64,
     refused: u64,
@@ -1178,6 +1338,9 @@ fn run_doc(prop: &str, doc: &Doc, buf: &mut Vec<u8>, sink: &mut Sink, stats: &mu
         check_c01(doc, &ind, buf, sink, stats);
     } else {
         check_c02(doc, buf, sink, stats, seen, seed);
+    }
+    if doc.buf != "large" && doc.expect != "reject" && doc.expect != "may" {
+        check_buffers(prop, doc, &ind, buf, sink, stats, seed);
     }
 }
 
@@ -1234,6 +1397,8 @@ fn sweep_doc(cps: &[u32], sp: &str, set: u64) -> Option<Doc> {
         class: format!("scalar:{}:{}byte", sp, len),
         fam: format!("sweep:{}", sp),
         exp: Expected { id, pk, sig, kind: Some(1), kind_num: 1.0, ts: Some(1_700_000_000), ts_num: 1.7e9, tags, content },
+        buf: "large".into(),
+        need: 0,
     })
 }
 
@@ -1297,7 +1462,7 @@ fn sweep(prop: &str, list: &[u32], buf: &mut Vec<u8>, sink: &mut Sink, stats: &m
 
 fn summary(stats: &Stats, sink: &Sink) -> Value {
     json!({"t": "summary", "docs": stats.docs, "accepted": stats.accepted, "refused": stats.refused, "panics": stats.panics,
-           "events": stats.events, "scalars": stats.scalars, "by_fam": stats.by_fam, "by_expect": stats.by_expect,
+           "events": stats.events, "scalars": stats.scalars, "buffer_runs": stats.buffer_runs, "by_fam": stats.by_fam, "by_expect": stats.by_expect,
            "distinct": stats.distinct.len(), "distinct_nontrivial": stats.nontrivial.len(),
            "samples": stats.samples, "violation_counts": sink.counts, "toolerrs": sink.toolerrs})
 }
@@ -1415,6 +1580,8 @@ fn main() {
                         fam: "replay".into(),
                         exp: Expected { id: arr32(&ind.id), pk: arr32(&ind.pk), sig: sg, kind: ind.kind.as_u64(), kind_num: ind.kind.as_f64().unwrap_or(-1.0),
                                         ts: ind.ts.as_u64(), ts_num: ind.ts.as_f64().unwrap_or(-1.0), tags: ind.tags.clone(), content: ind.content.clone() },
+                        buf: match rp.get("buflen").and_then(|x| x.as_u64()) { Some(n) => format!("len:{}", n), None => "large".into() },
+                        need: 0,
                     };
                     progress.at(0);
                     ACTIVE.store(true, Ordering::Relaxed);
